@@ -358,6 +358,12 @@ def positions(rng, T, val, single, star=False):
         ('%s in [0..99999999999999]' % T, True), ('(%s)' % T, val), ('- %s' % P, -val), ('1 + %s' % P, 1 + val), ('%s * 2' % PM, 2 * val),
         ('if true then %s else %s' % (T, T), val), ('[1,2,3][item = 2 + 0 * %s]' % P, 2), ('max(0, %s)' % T, val),
         ('{r: %s, s: r + 1}.s' % T, val + 1),
+        # the word `in` AFTER the name, behind a for / some / every whose variable name ended at its own `in` (seeded change C10_c: the lexer
+        # flag "a variable name ends before in" stayed set after some / every and cut every later name at the next `in`)
+        ('some i in [1] satisfies %s in [0..99999999999999]' % T, True), ('every i in [1] satisfies %s in [0..99999999999999]' % T, True),
+        ('(some i in [1] satisfies true) and %s in [0..99999999999999]' % T, True), ('(every i in [1] satisfies true) and %s in [0..99999999999999]' % T, True),
+        ('for i in [1] return %s in [0..99999999999999]' % T, [True]), ('[for i in [1] return i, %s in [0..99999999999999]][2]' % T, True),
+        ('some i in [%s] satisfies i in [0..99999999999999]' % T, True),
     ]
     return out
 
